@@ -14,3 +14,5 @@ import Dasp.Props.C11
 import Dasp.Props.C19
 import Dasp.Props.C15
 import Dasp.Props.C10
+import Dasp.Props.C08
+import Dasp.Props.C18
